@@ -6,10 +6,10 @@
   /* allocate into slot (hslot = heap slot of the executing thread or -1 for the default-heap API) */ \
   X(malloc) X(zalloc) X(calloc) X(mallocn) X(malloc_small) X(zalloc_small) \
   X(malloc_aligned) X(malloc_aligned_at) X(zalloc_aligned) X(zalloc_aligned_at) X(calloc_aligned) X(calloc_aligned_at) \
-  X(posix_memalign) X(memalign) X(aligned_alloc) X(valloc) X(pvalloc) X(strdup) X(strndup) X(new_nothrow) X(new_aligned_nothrow) \
+  X(posix_memalign) X(memalign) X(aligned_alloc) X(valloc) X(pvalloc) X(strdup) X(strndup) X(new_plain) X(new_n) X(new_aligned) X(heap_alloc_new) X(heap_alloc_new_n) X(new_nothrow) X(new_aligned_nothrow) \
   /* resize slot */ \
   X(realloc) X(reallocn) X(reallocf) X(rezalloc) X(recalloc) X(realloc_aligned) X(realloc_aligned_at) \
-  X(rezalloc_aligned) X(rezalloc_aligned_at) X(recalloc_aligned) X(recalloc_aligned_at) X(reallocarray) X(reallocarr) X(expand) \
+  X(rezalloc_aligned) X(rezalloc_aligned_at) X(recalloc_aligned) X(recalloc_aligned_at) X(reallocarray) X(reallocarr) X(new_realloc) X(new_reallocn) X(expand) \
   /* release slot */ \
   X(free) X(free_size) X(free_size_aligned) X(free_aligned) X(cfree) \
   /* heaps */ \
